@@ -164,6 +164,34 @@ def equiv(t1, t2, rng):
     return None
 
 
+FP_VALS = [0.0, -0.0, 1.0, -1.0, float("nan"), float("inf"), 5e-324]
+
+
+def fp_table_check(spec):
+    """ite_cases / ite_dict with double-precision case values built from spec; -> None | text of the first selector value at which the
+    result is not the value of the first matching case (values compared by bit pattern, NaN as one value)"""
+    import struct, claripy
+    fbits = lambda v: "nan" if v != v else struct.pack(">d", v)  # noqa: E731
+    w = spec["w"]
+    i = claripy.BVS("fi%d" % w, w, explicit_name=True)
+    vals = [claripy.FPV(FP_VALS[n], claripy.FSORT_DOUBLE) for _, _, n in spec["cases"]]
+    dflt = claripy.FPV(FP_VALS[spec["default"]], claripy.FSORT_DOUBLE)
+    holds = lambda kind, k, x: x == k if kind == "eq" else x < k  # noqa: E731
+    if spec["kind"] == "ite_cases":
+        conds = [(i == k) if kind == "eq" else claripy.ULT(i, k) for kind, k, _ in spec["cases"]]
+        r = claripy.ite_cases(list(zip(conds, vals)), dflt)
+        what = "ite_cases(%s, %s)" % (list(zip(conds, vals)), dflt)
+    else:
+        r = claripy.ite_dict(i, {k: v for (_, k, _), v in zip(spec["cases"], vals)}, dflt)
+        what = "ite_dict(%s, %s, %s)" % (i, {k: v for (_, k, _), v in zip(spec["cases"], vals)}, dflt)
+    for x in range(1 << w):
+        want = next((v for (kind, k, _), v in zip(spec["cases"], vals) if holds(kind, k, x)), dflt)
+        got = claripy.replace(r, i, claripy.BVV(x, w)) if r.symbolic else r
+        if got.op != "FPV" or fbits(got.args[0]) != fbits(want.args[0]):
+            return "%s = %s: at %s = %d it is %s, the first matching case gives %s" % (what, r, i.args[0], x, got, want)
+    return None
+
+
 class _TagBase:
     pass
 
@@ -469,6 +497,19 @@ def run(ctx):
             holds = [(c, v) for c, v in rev if E.ev(E.from_ast(c), env)[1]]
             if len(holds) != 1 or E.ev(E.from_ast(holds[0][1]), env) != E.ev(ict, env):
                 viol("C08/reverse_ite_cases/not-partition", "reverse_ite_cases(%s): %d guards hold at %s" % (ic, len(holds), env), {"env": env}); break
+    # ---- ite_cases / ite_dict over FLOATING-POINT values: first match, as VALUES (-0.0 is not +0.0: a case must not be dropped because it
+    # compares equal to what follows under IEEE-754's ==; found by a seeded-change agent on the unchanged tree)
+    for it in range(ctx.pick(150, 1500)):
+        w = rng.choice([2, 3])
+        nv = lambda: rng.randrange(len(FP_VALS))  # noqa: E731
+        if rng.random() < 0.5:
+            spec = {"kind": "ite_cases", "w": w, "cases": [[rng.choice(["eq", "ult"]), rng.randrange(1 << w), nv()] for _ in range(rng.choice([1, 2, 3, 4]))], "default": nv()}
+        else:
+            spec = {"kind": "ite_dict", "w": w, "cases": [["eq", k, nv()] for k in rng.sample(range(1 << w), rng.choice([1, 2, 3, 4]))], "default": nv()}
+        ctx.count()
+        bad = fp_table_check(spec)
+        if bad:
+            viol("C08/%s/not-first-match/floating-point-values" % spec["kind"], bad, {"fp_table": spec})
     # ---- chop / get_bytes / get_byte
     for it in range(ctx.pick(200, 3000)):
         w = rng.choice([8, 16, 24, 32, 12, 20, 64])
@@ -549,6 +590,22 @@ def replay(ctx, obj):
 
     def tup(t):
         return tuple(tup(x) if isinstance(x, list) else x for x in t)
+    if "fp_table" in r:
+        bad = fp_table_check(r["fp_table"])
+        print(bad or "the table is the first-match table on the current tree")
+        if bad:
+            print("VIOLATION property=C08 replay=(given)"); return 1
+        return 0
+    if "twin" in r:
+        import claripy
+        a = E.build(tup(r["tree"]))
+        l = next(x for x in a.leaf_asts() if x.op == "BVS" and x.args[0] == r["twin"])
+        e = claripy.Concat(l.clear_annotations(), l.annotate(_Tag(1)))
+        c = e.canonicalize()[2]
+        print(e, "->", c)
+        if c.args[0].args[0] != c.args[1].args[0]:
+            print("VIOLATION property=C08 replay=(given)"); return 1
+        return 0
     if "a" in r and "b" in r:
         a, b = E.build(tup(r["a"])), E.build(tup(r["b"]))
         res = a.identical(b)
